@@ -9,41 +9,205 @@ Simulation relation `R`: `cursor = 8·byteoffset + bitoffset`, `bitoffset < 8`,
 `byteoffsetmax = ⌈maxbits / 8⌉`, equal alignments (and the alignment is one of
 1, 2, 4, 8, 16).  One step lemma (`step_sim`) by cases on the member kind; lifted by
 induction over the member list (`loop_sim`); `flat_eq` adds the final rounding.
+
+`stepC`/`finishC`/`packCfg` are built from `Generated/LayoutExprs.lean` (regenerated from the C source
+each run).  The first section gives those definitions their arithmetic meaning: `stepC_eq_ref`
+(`stepC = stepCRef`, the hand-written reference form all proofs below work on), `finishC_ref`,
+`packCfg_def`, `bump_def`, `roundupBytes_def`, and `alignDown_A16`/`alignUp_A16` (`x & ~(a-1)` is
+`x - x % a` for the alignments 1, 2, 4, 8, 16).  A change of an operator, constant or comparison in the C
+source makes one of these lemmas (or a step lemma) fail.
 -/
 namespace CffiVerif.Layout
 open CffiVerif.GccLayout
 
 def A16 (a : Nat) : Prop := a = 1 ∨ a = 2 ∨ a = 4 ∨ a = 8 ∨ a = 16
 
+/-! ### meaning of the definitions regenerated from the C source (`Generated/LayoutExprs.lean`) -/
+
+open CffiVerif.Generated in
+theorem roundupBytes_def (bytes bits : Nat) :
+    roundupBytes bytes bits = bytes + (if bits > 0 then 1 else 0) := by
+  simp only [roundupBytes, LX.roundupBytes, LX.b2n]
+  by_cases h : bits > 0 <;> simp [h]
+
+/-- `x & ~(a-1)`, for the alignments that occur: `x - x % a` -/
+theorem andNot_A16 (x a : Nat) (ha : A16 a) : CffiVerif.Generated.LX.andNot x (a - 1) = x - x % a := by
+  unfold CffiVerif.Generated.LX.andNot
+  rcases ha with rfl | rfl | rfl | rfl | rfl
+  · simp [Nat.mod_one]
+  · have := Nat.and_two_pow_sub_one_eq_mod x 1; simp at this; simp [this]
+  · have := Nat.and_two_pow_sub_one_eq_mod x 2; simp at this; simp [this]
+  · have := Nat.and_two_pow_sub_one_eq_mod x 3; simp at this; simp [this]
+  · have := Nat.and_two_pow_sub_one_eq_mod x 4; simp at this; simp [this]
+
+/-- arithmetic reading of `alignDown` / `alignUp` -/
+def alignDownA (x a : Nat) : Nat := x - x % a
+def alignUpA (x a : Nat) : Nat := alignDownA (x + (a - 1)) a
+
+theorem alignDown_A16 (x a : Nat) (ha : A16 a) : alignDown x a = alignDownA x a := by
+  simp only [alignDown, CffiVerif.Generated.LX.fieldOffsetBytes, andNot_A16 x a ha, alignDownA]
+
+theorem alignUp_A16 (x a : Nat) (ha : A16 a) : alignUp x a = alignUpA x a := by
+  have h1 : x + a - 1 = x + (a - 1) := by unfold A16 at ha; omega
+  simp only [alignUp, CffiVerif.Generated.LX.nbfAlign, andNot_A16 _ a ha, alignUpA, alignDownA, h1]
+
+theorem defaultPacking_def : defaultPacking = 0x40000000 := rfl
+
+theorem packCfg_def (p : Nat) :
+    packCfg p = if p = 1 then (1, true) else if p = 0 then (defaultPacking, false) else (p, true) := by
+  simp only [packCfg, CffiVerif.Generated.LX.packedPack, CffiVerif.Generated.LX.noPackCond, defaultPacking]
+  by_cases h1 : p = 1
+  · simp [h1]
+  · by_cases h0 : p = 0
+    · simp [h0]
+    · have : ¬ ((p : Int) ≤ 0) := by omega
+      simp [h1, h0, this]
+
+/-- reference form of `St.bump` -/
+def bumpRef (alignment byteoffset bitoffset byteoffsetmax : Nat) : St :=
+  { byteoffset := byteoffset, bitoffset := bitoffset, alignment := alignment,
+    byteoffsetmax :=
+      if roundupBytes byteoffset bitoffset > byteoffsetmax
+      then roundupBytes byteoffset bitoffset else byteoffsetmax }
+
+theorem bump_def (A x bo m : Nat) : St.bump A x bo m = bumpRef A x bo m := by
+  simp only [St.bump, bumpRef, CffiVerif.Generated.LX.maxCond, CffiVerif.Generated.LX.maxNew, roundupBytes]
+  by_cases h : CffiVerif.Generated.LX.roundupBytes x bo > m <;> simp [h]
+
+/-- Reference form of `stepC`: the same loop body with the generated expressions replaced by their
+arithmetic reading (`stepC_eq_ref`).  The simulation proofs work on this form. -/
+def stepCRef (isUnion : Bool) (pack : Nat) (sfPacked : Bool) (isLast : Bool)
+    (s : St) (f : FField CField) : Except Reject (St × List CField) :=
+  -- if (cffi_get_size(ftype) < 0) { only an array, not a bit-field, in last position }
+  if f.size.isNone && !(f.isArray && f.bits.isNone && isLast) then .error .typeError else
+  -- if (is_union) byteoffset = bitoffset = 0;
+  let byteoffset := if isUnion then 0 else s.byteoffset
+  let bitoffset := if isUnion then 0 else s.bitoffset
+  let falignorg := f.align
+  let falign := if pack < falignorg then pack else falignorg
+  -- GCC: anonymous bitfields (of any size) don't cause alignment
+  let doAlign := match f.bits with
+    | some _ => f.named
+    | none => true
+  let alignment := if s.alignment < falign && doAlign then falign else s.alignment
+  match f.bits with
+  | none =>
+    -- not a bitfield: pad to the next byte, then to 'falign'
+    let byteoffset := alignUp (roundupBytes byteoffset bitoffset) falign
+    let outs : List CField :=
+      if !f.named && f.isAgg then
+        -- a nested anonymous struct or union: its fields are copied at byteoffset + cf_offset
+        f.sub.map fun c => { c with offset := byteoffset + c.offset }
+      else
+        [{ offset := byteoffset, bits := none, fsize := f.size }]
+    -- if (ftype->ct_size >= 0) byteoffset += ftype->ct_size;
+    let byteoffset := match f.size with
+      | some n => byteoffset + n
+      | none => byteoffset
+    .ok (bumpRef alignment byteoffset 0 s.byteoffsetmax, outs)
+  | some fbitsize =>
+    if !f.intlike then .error .typeError else     -- "cannot be a bit field"
+    match f.size with
+    | none => .error .typeError                     -- (already rejected above)
+    | some ctSize =>
+    if fbitsize > 8 * ctSize then .error .typeError else   -- "exceeds the width of the type"
+    let fieldOffsetBytes := alignDown byteoffset falign
+    if fbitsize = 0 then
+      if f.named then .error .typeError else       -- "is declared with :0"
+      -- GCC's notion of "ftype :0;": pad byteoffset to a value aligned for "ftype"
+      let fieldOffsetBytes :=
+        if roundupBytes byteoffset bitoffset > fieldOffsetBytes
+        then fieldOffsetBytes + falign else fieldOffsetBytes
+      .ok (bumpRef alignment fieldOffsetBytes 0 s.byteoffsetmax, [])
+    else
+      -- GCC's algorithm
+      let bitsAlreadyOccupied := (byteoffset - fieldOffsetBytes) * 8 + bitoffset
+      if bitsAlreadyOccupied + fbitsize > 8 * ctSize then
+        -- it would not fit, we need to start at the next allowed position
+        if sfPacked && bitsAlreadyOccupied % 8 ≠ 0 then .error .notImplemented else
+        let fieldOffsetBytes := fieldOffsetBytes + falign
+        let byteoffset := fieldOffsetBytes
+        let bitoffset := 0 + fbitsize
+        let outs : List CField :=
+          if f.named then [{ offset := fieldOffsetBytes, bits := some (0, fbitsize), fsize := some ctSize }] else []
+        .ok (bumpRef alignment (byteoffset + bitoffset / 8) (bitoffset % 8) s.byteoffsetmax, outs)
+      else
+        let bitshift := bitsAlreadyOccupied
+        let bitoffset := bitoffset + fbitsize
+        let outs : List CField :=
+          if f.named then [{ offset := fieldOffsetBytes, bits := some (bitshift, fbitsize), fsize := some ctSize }] else []
+        .ok (bumpRef alignment (byteoffset + bitoffset / 8) (bitoffset % 8) s.byteoffsetmax, outs)
+
+
+open CffiVerif.Generated in
+theorem stepC_eq_ref (u : Bool) (pack : Nat) (sfp last : Bool) (s : St) (f : FField CField) :
+    stepC u pack sfp last s f = stepCRef u pack sfp last s f := by
+  unfold stepC stepCRef
+  simp only [bump_def, LX.unionReset, LX.falign, LX.doAlignGuard, LX.gccStyle, LX.doAlignGcc, LX.doAlignMsvc,
+    LX.doAlignDefault, LX.alignUpdateCond, LX.alignUpdateNew, LX.nbfRoundup, LX.nbfBitoffset, LX.anonCond,
+    LX.anonOffset, LX.nbfOffset, LX.nbfAdvance, LX.tooWide, LX.isZeroWidth, LX.namedCond, LX.zeroWidthPad,
+    LX.nextUnit, LX.zeroWidthByteoffset, LX.zeroWidthBitoffset, LX.bitsAlreadyOccupied, LX.fitFails,
+    LX.packedReuse, LX.noFitByteoffset, LX.noFitBitoffset, LX.noFitBitshift, LX.fitBitshift, LX.bitoffsetAdd,
+    LX.byteoffsetCarry, LX.bitoffsetMask, LX.bfOffset, LX.bfBitshift, LX.bfBitsize,
+    sfArm, sfMsvc, fbitsizeOf, fnamelenOf, flagVal]
+  have h7 : ∀ x : Nat, x &&& 7 = x % 8 := fun x => Nat.and_two_pow_sub_one_eq_mod x 3
+  have h3 : ∀ x : Nat, x >>> 3 = x / 8 := fun x => Nat.shiftRight_eq_div_pow x 3
+  cases hb : f.bits with
+  | none =>
+    cases f.named <;> cases f.isAgg <;> simp [roundupBytes, alignUp] <;> rfl
+  | some w =>
+    cases hs : f.size with
+    | none => simp
+    | some sz =>
+      cases hn : f.named <;> cases sfp <;> simp [roundupBytes, alignDown, h7, h3] <;> rfl
+
+theorem finishC_ref (s : St) (fields : List CField) :
+    finishC s fields =
+      { size := if alignUp s.byteoffsetmax s.alignment = 0 then 1 else alignUp s.byteoffsetmax s.alignment,
+        align := s.alignment, fields := fields } := by
+  simp only [finishC, CffiVerif.Generated.LX.alignedSize, CffiVerif.Generated.LX.sizeIsZero,
+    CffiVerif.Generated.LX.sizeIfZero, CffiVerif.Generated.LX.totalSize, CffiVerif.Generated.LX.totalAlignment,
+    alignUp, CffiVerif.Generated.LX.nbfAlign]
+  by_cases h : CffiVerif.Generated.LX.andNot (s.byteoffsetmax + s.alignment - 1) (s.alignment - 1) = 0 <;> simp [h]
+
+/-! ### arithmetic of the rounding steps -/
+
+
 theorem alignUp_bytes (b bo a : Nat) (hbo : bo < 8) (ha : A16 a) :
     8 * alignUp (roundupBytes b bo) a = roundUp (8 * b + bo) (8 * a) := by
+  rw [alignUp_A16 _ _ ha, roundupBytes_def]
   rcases ha with rfl | rfl | rfl | rfl | rfl <;>
-    simp only [alignUp, alignDown, roundupBytes, roundUp] <;> split <;> omega
+    simp only [alignUpA, alignDownA, roundUp] <;> split <;> omega
 
 theorem zero_width (b bo a : Nat) (hbo : bo < 8) (ha : A16 a) :
     8 * (if roundupBytes b bo > alignDown b a then alignDown b a + a else alignDown b a)
       = roundUp (8 * b + bo) (8 * a) := by
+  rw [alignDown_A16 _ _ ha, roundupBytes_def]
   rcases ha with rfl | rfl | rfl | rfl | rfl <;>
-    simp only [alignDown, roundupBytes, roundUp] <;> split <;> split <;> omega
+    simp only [alignDownA, roundUp] <;> split <;> split <;> omega
 
 theorem bits_occupied (b bo a : Nat) (hbo : bo < 8) (ha : A16 a) :
     (b - alignDown b a) * 8 + bo = (8 * b + bo) % (8 * a) := by
-  rcases ha with rfl | rfl | rfl | rfl | rfl <;> simp only [alignDown] <;> omega
+  rw [alignDown_A16 _ _ ha]
+  rcases ha with rfl | rfl | rfl | rfl | rfl <;> simp only [alignDownA] <;> omega
 
 theorem next_unit (b bo a : Nat) (hbo : bo < 8) (ha : A16 a) (h : (8 * b + bo) % (8 * a) ≠ 0) :
     8 * (alignDown b a + a) = roundUp (8 * b + bo) (8 * a) := by
-  rcases ha with rfl | rfl | rfl | rfl | rfl <;> simp only [alignDown, roundUp] at * <;> omega
+  rw [alignDown_A16 _ _ ha]
+  rcases ha with rfl | rfl | rfl | rfl | rfl <;> simp only [alignDownA, roundUp] at * <;> omega
 
 theorem unit_start (b bo a : Nat) (hbo : bo < 8) (ha : A16 a) :
     8 * alignDown b a + (8 * b + bo) % (8 * a) = 8 * b + bo := by
-  rcases ha with rfl | rfl | rfl | rfl | rfl <;> simp only [alignDown] <;> omega
+  rw [alignDown_A16 _ _ ha]
+  rcases ha with rfl | rfl | rfl | rfl | rfl <;> simp only [alignDownA] <;> omega
 
 theorem final_size (m a : Nat) (ha : A16 a) : alignUp m a = roundUp m a := by
-  rcases ha with rfl | rfl | rfl | rfl | rfl <;> simp only [alignUp, alignDown, roundUp] <;> omega
+  rw [alignUp_A16 _ _ ha]
+  rcases ha with rfl | rfl | rfl | rfl | rfl <;> simp only [alignUpA, alignDownA, roundUp] <;> omega
 
 theorem bump_max (x bo m : Nat) (hbo : bo < 8) :
     (if roundupBytes x bo > (m + 7) / 8 then roundupBytes x bo else (m + 7) / 8) = (max m (8 * x + bo) + 7) / 8 := by
-  simp only [roundupBytes]; split <;> split <;> omega
+  simp only [roundupBytes_def]; split <;> split <;> omega
 
 /-- how a `CFieldObject` denotes bits of the object: the field starts at bit
 `8·cf_offset + cf_bitshift` (little endian) -/
@@ -90,7 +254,8 @@ theorem falign_eq (p a : Nat) (hp : PackOK p) (ha : A16 a) :
   have key : ∀ q, (q = 0 ∨ q = 1 ∨ q = 2 ∨ q = 4 ∨ q = 8 ∨ 16 ≤ q) →
       (if (packCfg q).1 < a then (packCfg q).1 else a) = capAlign q a ∧ A16 (capAlign q a) := by
     intro q hq
-    unfold packCfg capAlign defaultPacking A16 at *
+    simp only [packCfg_def, defaultPacking_def]
+    unfold capAlign A16 at *
     simp only [Nat.min_def]
     by_cases h1 : q = 1
     · subst h1; simp only [if_true]; refine ⟨?_, ?_⟩ <;> (repeat' split) <;> omega
@@ -111,7 +276,7 @@ theorem size_check (last : Bool) (f : FField CField) (p : Nat) (hf : WFField p l
 
 theorem R_bump (A x bo bmax : Nat) (g : GSt) (c A' : Nat) (h1 : c = 8 * x + bo) (hbo : bo < 8)
     (hmax : bmax = (g.maxbits + 7) / 8) (hA : A = A') (h16 : A16 A') :
-    R (St.bump A x bo bmax) (place g c A') := by
+    R (bumpRef A x bo bmax) (place g c A') := by
   subst hA h1 hmax
   exact ⟨rfl, hbo, bump_max x bo g.maxbits hbo, rfl, h16⟩
 
@@ -132,7 +297,8 @@ theorem step_sim (u : Bool) (p : Nat) (last : Bool) (s : St) (g : GSt) (f : FFie
   cases hb : f.bits with
   | none =>
     rw [hb] at hsz
-    unfold stepC gStep
+    rw [stepC_eq_ref]
+    unfold stepCRef gStep
     simp only [hb, hsz, toG, hfal, Bool.false_eq_true, if_false, Bool.and_true]
     have hcur0 : (if u = true then 0 else g.cursor) =
         8 * (if u = true then 0 else s.byteoffset) + (if u = true then 0 else s.bitoffset) := by
@@ -150,7 +316,7 @@ theorem step_sim (u : Bool) (p : Nat) (last : Bool) (s : St) (g : GSt) (f : FFie
         rw [hal]; by_cases h : g.align < capAlign p f.align <;> simp [h] <;> omega
       rw [hA]
       cases f.size <;>
-      · simp only [St.bump, place, roundupBytes, Nat.lt_irrefl, if_false, Nat.add_zero]
+      · simp only [bumpRef, place, roundupBytes_def, Nat.lt_irrefl, if_false, Nat.add_zero]
         refine ⟨by simp only []; omega, by simp only []; omega, ?_, rfl, A16_max ha16 hfa16⟩
         simp only [hmax]; split <;> omega
     · by_cases h : (!f.named && f.isAgg) = true
@@ -167,13 +333,14 @@ theorem step_sim (u : Bool) (p : Nat) (last : Bool) (s : St) (g : GSt) (f : FFie
     subst hp0
     have hcap : capAlign 0 f.align = f.align := by simp [capAlign]
     rw [hcap] at hfal hfa16
-    have hpk : (packCfg 0).2 = false := by simp [packCfg]
+    have hpk : (packCfg 0).2 = false := by simp [packCfg_def]
     rw [hb] at hsz
     have hcur0 : (if u = true then 0 else g.cursor) =
         8 * (if u = true then 0 else s.byteoffset) + (if u = true then 0 else s.bitoffset) := by
       cases u <;> simp [hcur]
     have hbit0 : (if u = true then 0 else s.bitoffset) < 8 := by cases u <;> simp [hbit]
-    unfold stepC gStep
+    rw [stepC_eq_ref]
+    unfold stepCRef gStep
     simp only [hb, toG, hfal, hcap, hpk, hint, hsize, Bool.false_eq_true, if_false, Bool.not_true, Bool.false_and]
     rw [hcur0]
     generalize (if u = true then 0 else s.byteoffset) = b0 at *
@@ -240,10 +407,10 @@ theorem flat_eq (u : Bool) (p : Nat) (fs : List (FField CField)) (hp : PackOK p)
       A16 l.align := by
   obtain ⟨s', os, h, hR, ho⟩ := loop_sim u p hp fs St.init GSt.init hw R_init
   refine ⟨finishC s' os, by simp only [completeC, h], ?_, ?_, ?_, ?_⟩
-  · simp only [finishC, completeG, gFinish, hR.align]
-  · simp only [finishC, completeG, gFinish, ho]
-  · simp only [finishC, completeG, gFinish, hR.align, hR.max, final_size _ _ hR.a16]; rfl
-  · simp only [finishC, hR.align]; exact hR.a16
+  · simp only [finishC_ref, completeG, gFinish, hR.align]
+  · simp only [finishC_ref, completeG, gFinish, ho]
+  · simp only [finishC_ref, completeG, gFinish, hR.align, hR.max, final_size _ _ hR.a16]; rfl
+  · simp only [finishC_ref, hR.align]; exact hR.a16
 
 /-! ### `x & ~(a-1)` is `x - x % a` for powers of two -/
 
